@@ -330,12 +330,12 @@ pub fn child(args: &[String]) -> String {
                 }
                 let wire = catch(|| enc_avp(&h));
                 out.push_str(&format!("ENCODED HIDDEN AVP: {}\n", wire.as_ref().map(|b| hex_short(b, 200)).unwrap_or_else(|p| format!("PANIC: {p}"))));
-                out.push_str(&format!("REVEAL DIRECT: {}\n", clip(&format!("{:?}", catch(|| h.clone().reveal(&secret, &rv))), 600)));
+                out.push_str(&format!("REVEAL DIRECT: {}\n", clip(&catch(|| format!("{:?}", h.clone().reveal(&secret, &rv))).unwrap_or_else(|p| format!("PANIC: {p}")), 600)));
                 if let Ok(wire) = wire {
                     let (l, _) = dec_avps(&wire);
                     out.push_str(&format!("DECODED HIDDEN AVP: {}\n", clip(&format!("{l:?}"), 400)));
                     if let Some(Ok(h2)) = l.into_iter().next() {
-                        out.push_str(&format!("REVEAL AFTER ENCODE/DECODE: {}\n", clip(&format!("{:?}", catch(|| h2.reveal(&secret, &rv))), 600)));
+                        out.push_str(&format!("REVEAL AFTER ENCODE/DECODE: {}\n", clip(&catch(|| format!("{:?}", h2.reveal(&secret, &rv))).unwrap_or_else(|p| format!("PANIC: {p}")), 600)));
                     }
                 }
                 out.push_str(&format!("ORIGINAL: {}", clip(&format!("{a:?}"), 600)));
